@@ -32,11 +32,14 @@ def cases(tier, seed):
         for rep in range(1 if tier == "quick" else 4):
             yield {"kind": "basics", "n": n, "t": t, "batch": b, "interleaved": inter, "rep": rnd.choice(["dense", "linop", "kron"]), "seed": rnd.randrange(10**6)}
     for (n, t), b in itertools.product(SHAPES, [[], [2], [3, 2]]):
-        for td in range(-(len(b) + 1), len(b) + 1):
-            yield {"kind": "ctor", "ctor": "from_batch_mvn", "n": n, "t": t, "batch": b, "task_dim": td, "seed": rnd.randrange(10**6)}
-        if t >= 2:  # documented: at least 2 MVNs
-            yield {"kind": "ctor", "ctor": "from_independent_mvns", "n": n, "t": t, "batch": b, "seed": rnd.randrange(10**6)}
-        yield {"kind": "ctor", "ctor": "from_repeated_mvn", "n": n, "t": t, "batch": b, "seed": rnd.randrange(10**6)}
+        for crep in ("dense", "diag", "root", "mixed"):
+            for td in range(-(len(b) + 1), len(b) + 1):
+                if crep != "mixed":
+                    yield {"kind": "ctor", "ctor": "from_batch_mvn", "n": n, "t": t, "batch": b, "task_dim": td, "crep": crep, "seed": rnd.randrange(10**6)}
+            if t >= 2:  # documented: at least 2 MVNs
+                yield {"kind": "ctor", "ctor": "from_independent_mvns", "n": n, "t": t, "batch": b, "crep": crep, "seed": rnd.randrange(10**6)}
+            if crep != "mixed":
+                yield {"kind": "ctor", "ctor": "from_repeated_mvn", "n": n, "t": t, "batch": b, "crep": crep, "seed": rnd.randrange(10**6)}
     # indexing
     shapes = [(4, 3), (2, 3)] if tier == "quick" else [(4, 3), (2, 3), (3, 2), (1, 3), (3, 1), (3, 3)]
     for (n, t) in shapes:
@@ -196,26 +199,42 @@ def _ctor(case, ctx, g):
 
     n, t, b = case["n"], case["t"], case["batch"]
     name = case["ctor"]
+    crep = case.get("crep", "dense")
+
+    def wrap(c, k=0):
+        """hand the covariance to the MVN constructor in the requested representation (dense value returned alongside)"""
+        from linear_operator.operators import DiagLinearOperator, RootLinearOperator
+
+        r = crep if crep != "mixed" else ("diag", "dense", "root")[k % 3]
+        if r == "diag":
+            v = torch.diagonal(c, dim1=-2, dim2=-1).clone()
+            return DiagLinearOperator(v), torch.diag_embed(v)
+        if r == "root":
+            L = torch.linalg.cholesky(c)
+            return RootLinearOperator(L), L @ L.transpose(-1, -2)
+        return c, c
+
     if name == "from_batch_mvn":
         td = case["task_dim"]
         full = list(b)
         pos = td if td >= 0 else len(b) + 1 + td
         full.insert(pos, t)  # batch shape of the base MVN, task dimension at `pos`
         mean = util.randn(g, *full, n)
-        cov = _spd(g, *full, n)
-        d = MT.from_batch_mvn(MVN(mean, cov), task_dim=td)
+        cobj, cov = wrap(_spd(g, *full, n))
+        d = MT.from_batch_mvn(MVN(mean, cobj), task_dim=td)
         Mref = mean.movedim(pos, -1)  # ... n t
         covs = cov.movedim(pos, 0)  # t ... n n
     elif name == "from_independent_mvns":
         means = [util.randn(g, *b, n) for _ in range(t)]
-        covl = [_spd(g, *b, n) for _ in range(t)]
-        d = MT.from_independent_mvns([MVN(m, c) for m, c in zip(means, covl)])
+        pairs = [wrap(_spd(g, *b, n), k) for k in range(t)]
+        covl = [p_[1] for p_ in pairs]
+        d = MT.from_independent_mvns([MVN(m, p_[0]) for m, p_ in zip(means, pairs)])
         Mref = torch.stack(means, -1)
         covs = torch.stack(covl, 0)
     else:
         mean = util.randn(g, *b, n)
-        cov = _spd(g, *b, n)
-        d = MT.from_repeated_mvn(MVN(mean, cov), num_tasks=t)
+        cobj, cov = wrap(_spd(g, *b, n))
+        d = MT.from_repeated_mvn(MVN(mean, cobj), num_tasks=t)
         Mref = mean.unsqueeze(-1).expand(*b, n, t)
         covs = cov.unsqueeze(0).expand(t, *cov.shape)
     # joint of independent tasks in canonical order: C[(i,a),(j,b)] = delta_ab cov_a[i,j]
@@ -225,8 +244,8 @@ def _ctor(case, ctx, g):
     Cref = C4.reshape(*b, n * t, n * t)
     ctx.expect(name + "_shapes", tuple(d.mean.shape) == (*b, n, t), f"mean shape {tuple(d.mean.shape)} expected {(*b, n, t)}")
     ctx.close(name, d.mean, Mref, "bit", cls=name + ":mean")
-    ctx.close(name, _canon(d.covariance_matrix, n, t, d._interleaved), Cref, "direct", cls=name + ":cov")
-    ctx.close(name, d.variance, torch.diagonal(Cref, dim1=-2, dim2=-1).reshape(*b, n, t), "direct", cls=name + ":var")
+    ctx.close(name, _canon(d.covariance_matrix, n, t, d._interleaved), Cref, "direct", cls=name + ":cov:" + crep)
+    ctx.close(name, d.variance, torch.diagonal(Cref, dim1=-2, dim2=-1).reshape(*b, n, t), "direct", cls=name + ":var:" + crep)
     v = Mref + util.randn(g, *b, n, t)
     ctx.close(name, d.log_prob(v), util.mvn_logpdf(v.reshape(*b, -1), Mref.reshape(*b, -1), Cref), "direct", cls=name + ":log_prob")
     ctx.cell({k: v_ for k, v_ in case.items() if k != "seed"}, nontrivial=n * t >= 2)
